@@ -51,6 +51,8 @@ func TestMain(m *testing.M) {
 	core.DeclareFaults("preemption", "preemption-inside-tink-call", "task-finished-handover", "free-run-fallback")
 	core.DeclareProbes("globally-sourced-randomness(semantic oracle)", "legacy-adapter", "multi-key-keyset", "handle-reads", "construct-under-schedule",
 		"registry-lookup", "keygen-under-schedule", "accept-rejects-corrupted", "race-build", "monitored-handle", "monitoring-events-compared", "round-robin-plan", "site-targeted-plan", "reparse-construct-under-schedule", "prehash-signing-path")
+	// "keygen-not-a-function-of-the-reader(semantic oracle)" is not declared: it cannot occur while GODEBUG
+	// cryptocustomrand=1 holds (the orchestrator forces it) and every tink key generator reads crypto/rand.Reader
 	stubkm.Register()
 	core.Main(m, prop, "sched", map[string]string{"everything in /repo": "real (instrumented copies via -overlay: yield call before every statement, semantics unchanged)",
 		"goroutine scheduling": "stub (simsched baton, plan drawn by rapid)", "crypto/rand": "stub (simrng, one lane per task)",
@@ -302,7 +304,7 @@ func runSched(t *rapid.T) {
 	for i := range tasks {
 		nOps := rapid.IntRange(1, 3).Draw(t, fmt.Sprintf("t%d.nOps", i))
 		for j := 0; j < nOps; j++ {
-			o := drawOp(t, r, sh, scenario, fmt.Sprintf("t%d.op%d.", i, j))
+			o := drawOp(t, r, g, sh, scenario, fmt.Sprintf("t%d.op%d.", i, j))
 			tasks[i] = append(tasks[i], o)
 			opNames = append(opNames, o.name)
 		}
@@ -339,8 +341,11 @@ func runSched(t *rapid.T) {
 		r.Count("distinct-sites-per-task", int64(len(firsts[i])))
 		expectedEvents[i] = append([]simmon.Event{}, mon.Events[i]...)
 		if len(s1.Panics) > 0 {
-			r.Violation("C18/panic-sequential:"+sh.entry.KeyType, fmt.Sprintf("task %d panicked when run alone: %v", i, s1.Panics[0]))
-			return
+			// a task that panics when run ALONE shows a deterministic defect of some other property (or of the harness),
+			// nothing about concurrent use: counted, never reported under C18
+			r.Logf("task %d panicked when run alone: %v", i, s1.Panics[0])
+			core.CountGlobal("panic-when-run-alone:" + sh.entry.KeyType)
+			t.Skip("a task panics when run alone")
 		}
 	}
 	if sumArena() != arenaSum {
@@ -439,6 +444,7 @@ func runSched(t *rapid.T) {
 		mon.SetLaneFunc(s.Current)
 		g.SetLaneFunc(s.Current)
 		s.OnPass = onPass
+		discardRaceLog() // reports of runs that were dropped unjudged must not key the next genuine race
 		before := raceErrors()
 		s.Run(fns)
 		races := raceErrors() - before
@@ -450,6 +456,7 @@ func runSched(t *rapid.T) {
 		}
 		return s, got, ev, races
 	}
+	monitoringDiffers := false
 	// judge compares one concurrent execution with the sequential oracle; "" = agrees
 	judge := func(s *simsched.Sched, got [][]result, ev [][]simmon.Event) (string, string) {
 		kt := sh.class + "/" + sh.entry.KeyType
@@ -480,7 +487,9 @@ func runSched(t *rapid.T) {
 		}
 		for i := range tasks {
 			if !sh.semantic && fmt.Sprint(ev[i]) != fmt.Sprint(expectedEvents[i]) {
-				return "C18/monitoring-differs:" + kt, fmt.Sprintf("task %d logged %v under the schedule but %v when run alone", i, ev[i], expectedEvents[i])
+				// C18 speaks of what calls return and of data races; what the monitoring client sees is compared for the
+				// record only (a library that logs from a helper goroutine or in batches conforms)
+				monitoringDiffers = true
 			}
 		}
 		return "", ""
@@ -550,6 +559,9 @@ func runSched(t *rapid.T) {
 		if monitored && len(events[i]) > 0 {
 			r.Probe("monitoring-events-compared")
 		}
+	}
+	if monitoringDiffers {
+		r.Count("monitoring-events-differ-under-schedule", 1)
 	}
 	if racesAfter > racesBefore {
 		loc, text := lastRaceReport()
@@ -666,7 +678,7 @@ func opClass(name string) string {
 }
 
 // drawOp draws one operation of a task.
-func drawOp(t *rapid.T, r *core.Run, sh *shared, scenario, label string) op {
+func drawOp(t *rapid.T, r *core.Run, g *simrng.RNG, sh *shared, scenario, label string) op {
 	kinds := []string{"produce", "produce", "accept", "accept-corrupted"}
 	if sh.acc == nil {
 		kinds = []string{"produce"}
@@ -857,7 +869,7 @@ func drawOp(t *rapid.T, r *core.Run, sh *shared, scenario, label string) op {
 		if catalog.Pooled(e) || e.Name == "" {
 			return op{name: "string", run: func(sh *shared) ([]byte, error) { return []byte(sh.h.String()), nil }}
 		}
-		return op{name: "keygen", run: func(sh *shared) ([]byte, error) {
+		gen := func(sh *shared) ([]byte, error) {
 			m := keyset.NewManager()
 			id, err := m.AddNewKeyFromParameters(e.Params)
 			if err != nil {
@@ -876,7 +888,26 @@ func drawOp(t *rapid.T, r *core.Run, sh *shared, scenario, label string) op {
 				return nil, err
 			}
 			return append([]byte(fmt.Sprintf("%d:", id)), ser.KeyData().GetValue()...), nil
-		}}
+		}
+		o := op{name: "keygen", run: gen}
+		// is this key type's generation a function of the reader bytes? (a library may legitimately generate keys from
+		// randomness the harness cannot key by task, e.g. reader-less standard-library generators)
+		off := g.Offset(14)
+		g.SetOffset(14, off+5000)
+		a, errA := gen(sh)
+		g.SetOffset(14, off+5000)
+		b, errB := gen(sh)
+		g.SetOffset(14, off)
+		if errA != nil || errB != nil || !bytes.Equal(a, b) {
+			r.Probe("keygen-not-a-function-of-the-reader(semantic oracle)")
+			o.check = func(sh *shared, out []byte) error {
+				if i := bytes.IndexByte(out, ':'); i <= 0 || len(out) <= i+1 {
+					return fmt.Errorf("generated key is empty")
+				}
+				return nil
+			}
+		}
+		return o
 	}
 	panic("unreachable")
 }
@@ -885,6 +916,17 @@ func drawOp(t *rapid.T, r *core.Run, sh *shared, scenario, label string) op {
 // race reports
 
 var raceLogOff int64
+
+// discardRaceLog forgets whatever ThreadSanitizer has written so far.
+func discardRaceLog() {
+	path := os.Getenv("VSIM_RACE_LOG")
+	if path == "" {
+		return
+	}
+	if fi, err := os.Stat(fmt.Sprintf("%s.%d", path, os.Getpid())); err == nil {
+		raceLogOff = fi.Size()
+	}
+}
 
 var frameRe = regexp.MustCompile(`^\s+(/\S+\.go):(\d+)`)
 
